@@ -71,7 +71,7 @@ def run(ctx):
     from fast_ticc import cluster_metrics as cmx
     from fast_ticc.containers import model_state, arguments
     rng = np.random.default_rng(ctx.seed)
-    ctx.proof_layer(allowed_axioms=core.R_AX, coq_deps=["Corr/RunAccounting"])
+    ctx.proof_layer(allowed_axioms=core.R_AX, coq_deps=["Corr/RunAccounting"], gen=["cluster_metrics"])
     core.note_drift(ctx, ANCHORS)
     cov = core.LineCoverage()
     nnz_l, bic_l = [], []
